@@ -109,3 +109,17 @@ def _v14(repo, mod):
 def _v15(repo, mod):
     fn = repo.func(TR, "InstrumentationExecutionTracer.track_line_visit")
     return insert_before(mod, fn.body[-1], "if line_id == getattr(self, '_last_line_id', -1):\n    return\nself._last_line_id = line_id")
+
+
+@variant("C02", "execution-trace-is-the-import-trace", TR, "C02.isolation", "init_trace hands out the import trace itself: lines of one execution reach the next")
+def _v50(repo, mod):
+    fn = repo.func(TR, "ExecutionTracer.init_trace")
+    s = find_stmt(fn, lambda s: isinstance(s, ast.Assign) and norm(s) == "new_trace = ExecutionTrace()")
+    return replace_node(mod, s, "new_trace = self._import_trace")
+
+
+@variant("C02", "twin-init-trace-merges-into-fresh-local", TR, None, "same behaviour, local renamed and merge chained differently")
+def _v51(repo, mod):
+    fn = repo.func(TR, "ExecutionTracer.init_trace")
+    s = find_stmt(fn, lambda s: isinstance(s, ast.Assign) and norm(s) == "new_trace = ExecutionTrace()")
+    return replace_node(mod, s, "new_trace = ExecutionTrace()\n        _unused = len(new_trace.covered_line_ids)")
